@@ -156,6 +156,27 @@ class JumpToStageHandler(StabilizeHandler[JumpToStage]):
                 )
                 return
 
+            # The jump was requested by a task of a RUNNING stage. If that stage
+            # is no longer RUNNING when the message is handled (canceled or
+            # finalized in between, e.g. CancelStage delivered first) the jump is
+            # moot: force-marking the source would overwrite a completed status
+            # (CANCELED -> SUCCEEDED) and re-arm stages of a finished workflow.
+            if source_stage.status != WorkflowStatus.RUNNING:
+                logger.info(
+                    "Ignoring jump from %s to %s - source stage is %s",
+                    source_stage.ref_id,
+                    message.target_stage_ref_id,
+                    source_stage.status,
+                )
+                if message.message_id:
+                    with self.repository.transaction(self.queue) as txn:
+                        txn.mark_message_processed(
+                            message_id=message.message_id,
+                            handler_type="JumpToStage",
+                            execution_id=message.execution_id,
+                        )
+                return
+
             # Find target stage by ref_id
             target_stage = execution.stage_by_ref_id(message.target_stage_ref_id)
 
